@@ -391,7 +391,7 @@ Proof.
   destruct (Nat.eq_dec i j) as [Hij|Hij].
   - split; [|exact Hij]. intro Hv. rewrite Hv in H.
     destruct Y as [|k M|]; try discriminate.
-    destruct k, eA, eB; try discriminate; eapply checked_explicit_nodiv; eauto.
+    eapply checked_explicit_nodiv; eauto.
   - exfalso. destruct vimp as [W|].
     + assert (Hn : no_equal eA eB) by (apply Hne; [discriminate|exact Hij]).
       destruct Y as [|k M|].
@@ -399,10 +399,10 @@ Proof.
       * destruct (j =? length E - 1); [|destruct (i =? length E - 1)].
         -- eapply checked_raw_nodiv; eauto.
         -- eapply checked_raw_nodiv; eauto.
-        -- destruct k, eA, eB; try discriminate; eapply checked_explicit_nodiv; eauto.
+        -- eapply checked_explicit_nodiv; eauto.
       * destruct ((j =? length E - 1) || (i =? length E - 1)); discriminate.
     + destruct Y as [|k M|]; try discriminate.
-      destruct k, eA, eB; try discriminate; eapply checked_explicit_nodiv; eauto.
+      eapply checked_explicit_nodiv; eauto.
 Qed.
 
 Theorem solve_nodiv st Y i j :
